@@ -64,6 +64,7 @@ def bounds_obligations(ctx, label, sym, hyps, extents, fq, skip_private_unknown=
 
 def side_obligations(ctx, label, sym, hyps, fq):
     n = 0
+    hyps = list(hyps) + [t for kind, t, g, q, w in sym.side if kind == "assume"]
     for kind, t, guards, qvars, where in sym.side:
         n += 1
         if kind == "div":
@@ -72,33 +73,97 @@ def side_obligations(ctx, label, sym, hyps, fq):
             ctx.valid("%s.scratch-read-covered-by-its-initialisation#%d" % (label, n), list(hyps) + list(guards), t, fq)
         elif kind == "shared-scalar-reduction":
             ctx.holds("%s.shared-scalar[%s]" % (label, t), False, "scalar %s is accumulated inside a worksharing loop without a reduction clause" % t, fq)
+        elif kind == "shared-scalar-write":
+            ctx.holds("%s.shared-scalar-write[%s]#%d" % (label, t, n), False, "scalar %s lives outside the parallel region and is written inside it by several threads (not private, no reduction)" % t, fq)
+        elif kind == "assume":
+            n -= 1
     return n
+
+
+def side_hyps(sym):
+    return [t for kind, t, g, q, w in sym.side if kind == "assume"]
+
+
+def rename_local(e2, sym_assumes, keep=()):
+    """Fresh copies of every variable created inside the parallel region the event belongs to (loop variables, auxiliary iteration counts,
+    havocked values): the second iteration / thread of a race pair has its own.  Variables of enclosing serial loops and the team size are shared.
+    Returns (index, guards, mapping, renamed copies of the assumptions that mention a renamed variable)."""
+    m = {}
+
+    def local(u):
+        nm = u.args[0]
+        if "#" not in nm or u in keep:
+            return False
+        if nm.startswith("nthreads#") or nm.startswith("maxthreads#"):
+            return False
+        try:
+            return int(nm.rsplit("#", 1)[1]) >= e2.outer
+        except ValueError:
+            return False
+    if e2.par is not None:
+        m[e2.par] = fresh(e2.par.args[0].split("#")[0] + "'", "I")
+    terms_ = [e2.idx] + list(e2.guards) + list(sym_assumes)
+    for t in terms_:
+        for u in tm.free_vars(t):
+            if u not in m and local(u):
+                m[u] = fresh(u.args[0].split("#")[0] + "'", u.args[1])
+    idx = tm.substitute(e2.idx, m)
+    guards = [tm.substitute(g, m) for g in e2.guards]
+    extra = [tm.substitute(a, m) for a in sym_assumes if any(u in m for u in tm.free_vars(a))]
+    return idx, guards, m, extra
 
 
 def independence_obligations(ctx, label, sym, hyps, fq, shared=None):
-    """Write/write and read/write disjointness between different iterations of each worksharing loop."""
-    evs = [e for e in sym.events if e.par is not None and not e.arr.private and (shared is None or e.arr.name in shared)]
-    writes = _dedupe([e for e in evs if e.kind == "w"])
-    reads = _dedupe([e for e in evs if e.kind == "r"])
+    """Data-race freedom of every parallel region (A6):  two accesses to the same element of a shared array, at least one a write, made in
+    the same barrier phase by (potentially) different threads.  Pairs:
+      same worksharing loop            different iterations  v != v'
+      thread-level code (every thread) different threads     tid != tid'
+      different constructs, same phase any iteration / thread against any (no barrier orders them)
+    `single` / `critical` / `atomic` blocks are executed by one thread at a time; they are compared against the other constructs of the phase."""
+    hyps = list(hyps) + side_hyps(sym)
+    evs = [e for e in sym.events if e.level in ("loop", "thread", "single") and not e.arr.private and (shared is None or e.arr.name in shared)]
+    writes = _dedupe_l([e for e in evs if e.kind == "w"])
+    reads = _dedupe_l([e for e in evs if e.kind == "r"])
     n = 0
     for i, w1 in enumerate(writes):
-        others = [w for w in writes[i:] if w.arr is w1.arr and w.par is w1.par] + [r for r in reads if r.arr is w1.arr and r.par is w1.par]
+        others = [w for w in writes[i:] if w.arr is w1.arr and w.phase == w1.phase] + [r for r in reads if r.arr is w1.arr and r.phase == w1.phase]
         for e2 in others:
-            idx2, g2, _, m = rename_qvars(e2)
-            v2 = m.get(e2.par)
-            if v2 is None:
+            same_construct = (e2.par is w1.par and e2.level == w1.level and e2.level in ("loop", "thread"))
+            if w1.level == "single" and e2.level == "single":
                 continue
+            idx2, g2, _, m = rename_qvars(e2)
+            cs = list(hyps) + list(w1.guards) + g2 + [tm.mk_eq(w1.idx, idx2)]
+            if same_construct:
+                v2 = m.get(e2.par)
+                if v2 is None:
+                    continue
+                cs.append(tm.mk_not(tm.mk_eq(w1.par, v2)))
             n += 1
-            cs = list(hyps) + list(w1.guards) + g2 + [tm.mk_not(tm.mk_eq(w1.par, v2)), tm.mk_eq(w1.idx, idx2)]
             r, env, be = smt.check_sat(cs, ctx.timeout)
-            name = "%s.independent[%s %s[%s] vs %s[%s]]#%d" % (label, "w/w" if e2.kind == "w" else "w/r", w1.arr.name, tm.show(w1.idx, 40), e2.arr.name, tm.show(e2.idx, 40), n)
+            name = "%s.independent[%s %s[%s] vs %s[%s]%s]#%d" % (label, "w/w" if e2.kind == "w" else "w/r", w1.arr.name, tm.show(w1.idx, 40), e2.arr.name, tm.show(e2.idx, 40),
+                                                                  "" if same_construct else " across constructs of one barrier phase", n)
             if r == "unsat":
                 ctx._rec("obligation", name, vc.Verdict("discharged", be), fq)
             elif r == "sat":
-                ctx._rec("obligation", name, vc.Verdict("refuted", be, "two different iterations of the worksharing loop touch the same element", witness=env), fq)
+                ctx._rec("obligation", name, vc.Verdict("refuted", be, "two different iterations / threads touch the same element without a barrier between them", witness=env), fq)
             else:
                 ctx.undecided(name, "solver unknown", fq)
     return n
+
+
+def _dedupe_l(events):
+    seen, out = set(), []
+    nfc = NF()
+    for e in events:
+        try:
+            key = (e.kind, e.arr.name, e.op if e.kind == "w" else "", nfc.canon_rf(nfc.nf(e.idx)), tuple(g.id for g in e.guards), e.par.id if e.par is not None else None, e.phase, e.level)
+        except NFError:
+            key = (e.seq,)
+        if key in seen:
+            continue
+        seen.add(key)
+        out.append(e)
+    return out
 
 
 def written_arrays(sym):
